@@ -11,7 +11,8 @@
 (*                                                                         *)
 (* ndjson line:  {"sig": [{"kind","name","ann","dflt"}..],                 *)
 (*                "calls": [{"p": ["g","b",..], "k": [["name","g"],..]}]}  *)
-(* Names must come from Wrapper!NameOrder (the canonical keyword order).   *)
+(* Names must come from Wrapper!NameOrder (the canonical keyword order);   *)
+(* tags are "g" "b" "n" "z" "o" in any mix.                                *)
 (***************************************************************************)
 EXTENDS Wrapper, IOUtils
 
